@@ -103,18 +103,20 @@ CLAIMS = {
         technique="Lean 4 program-shape theorems + W1C chip lemma + event injection between SPI transfers",
         design="7 C07"),
     'C08': dict(
-        text="Proof for buffer, shadow-array, list and integer-arithmetic safety; sanitizer builds for the float casts, the loop bounds and "
-             "the callback length. Theorem Sx.C08_memory_safe: for either build, EVERY packet-buffer size (a parameter of the model, not five samples), any "
+        text="Proof for buffer, shadow-array, list and integer-arithmetic safety and for the callback length; sanitizer builds for the float casts and the loop bounds. "
+             "Theorem Sx.C08_memory_safe: for either build, EVERY packet-buffer size (a parameter of the model, not five samples), any "
              "initial chip (both register pages, FIFO and every over-the-air length byte are universally quantified answers), any history of "
              "API calls with any arguments (the two raw register calls with register numbers 0x00..0x70), handler invocations, environment events between any two transfers, any failing transfers and any "
              "API call made by the application inside a callback: no operation accesses device->packet outside [0, cap) or the shadow arrays outside their 0x71 entries (every request is within the SPI "
              "contract of C19, and within it the shadow layer stays inside: Sx/Lemmas/ShadowSize.lean), reads the caller's "
-             "hop table outside [0, frequencies_length) or through NULL, divides by zero or shifts a negative int, and the handle invariant "
-             "(buffer size; 1 <= frequencies_length <= entries handed over) and the size of the shadow arrays are preserved. It follows from s_api, a structural theorem over the "
-             "model of all 57 API functions (Prog.Safe: every answer of chip and bus, burst answers of the requested length), lifted to the "
-             "interpreter by induction on the program tree (execG_safe, together with contract_api). Not proved (partial): float->integer conversions in range (C12 and "
-             "C14 prove it for their functions), termination of the two chip-bounded loops (model fuel), and that the callback length does "
-             "not exceed the bytes stored: these rest on the ASan/UBSan builds of the real driver at buffer sizes 16, 64, 255, 256 and 2047 "
+             "hop table outside [0, frequencies_length) or through NULL, divides by zero or shifts a negative int; every receive callback in every observation has a length "
+             "<= cap and is handed exactly that many bytes of the buffer (Sx.C08_callback_length; CbLen); and the handle invariant "
+             "(buffer size; 1 <= frequencies_length <= entries handed over; bytes-received counter <= cap) and the size of the shadow arrays are preserved. It follows from s_api, a structural theorem over the "
+             "model of all 57 API functions (Prog.Safe: every answer of chip and bus, burst answers of the requested length; the two callback sites use what a successful packet read is proved to leave "
+             "in the handle: Sx/Lemmas/RxLen.lean batch_post / loraGuard_post, every answer and failure), lifted to the "
+             "interpreter by induction on the program tree (execG_safe, together with contract_api). That the delivered bytes are the bytes the chip stored for THAT packet is C03 "
+             "(rx_invocation) and C05 (C05_rx_done), under their hypothesis that chip and handle agree on the packet format. Not proved (partial): float->integer conversions in range (C12 and "
+             "C14 prove it for their functions) and termination of the two chip-bounded loops (model fuel): these rest on the ASan/UBSan builds of the real driver at buffer sizes 16, 64, 255, 256 and 2047 "
              "with NaN/inf/huge arguments, hostile length bytes and retained chip configurations, and on the per-call SPI-transfer budget.",
         technique="Lean 4 structural safety theorem over all driver programs and all answers, for every buffer size + interpreter lift by induction + ASan/UBSan builds at five buffer sizes",
         design="7 C08"),
